@@ -145,6 +145,13 @@ pub fn evaluate(cfg: &RunCfg, rec: &RunRecord) -> (Vec<Finding>, Facts) {
     if cfg.prop == "C16" {
         return evaluate_c16(cfg, rec);
     }
+    if cfg.prop == "C19" {
+        return evaluate_c19(cfg, rec);
+    }
+    evaluate_single(cfg, rec)
+}
+
+pub fn evaluate_single(cfg: &RunCfg, rec: &RunRecord) -> (Vec<Finding>, Facts) {
     let mut out: Vec<Finding> = Vec::new();
     let kind = cfg.kind;
     let len = cfg.len;
@@ -1257,5 +1264,135 @@ fn evaluate_c16_inner(cfg: &RunCfg, rec: &RunRecord) -> (Vec<Finding>, Facts) {
         out.push(f(p, "unexpected-panic", format!("terminal action panicked: {msg}")));
     }
     facts.n_deliveries = delivered.min(1_000_000) as usize;
+    (out, facts)
+}
+
+// ---------------------------------------------------------------------------------------------
+// C19: several iterators over one collection. Every iterator, looked at alone, must behave like
+// a single sequential cursor (the original and fresh ones from position 0, a clone from the
+// original's position at the time of the clone call).
+
+pub fn evaluate_c19(cfg: &RunCfg, rec: &RunRecord) -> (Vec<Finding>, Facts) {
+    let len = cfg.len;
+    let (_, facts_all) = evaluate_single(
+        cfg,
+        &RunRecord {
+            calls: vec![],
+            seq_items: None,
+            ..rec.clone()
+        },
+    );
+    let mut facts = facts_all;
+    facts.n_calls = rec.calls.len();
+    let mut out: Vec<Finding> = Vec::new();
+    if let Some(v) = &rec.sim.verdict {
+        out.push(f("C19", "hang", format!("the run did not terminate: {:?}", v)));
+        return (out, facts);
+    }
+    if rec.sim.aborted {
+        return (out, facts);
+    }
+    let mut ids: Vec<u32> = rec.calls.iter().map(|c| c.iter).collect();
+    ids.sort();
+    ids.dedup();
+    let orig_calls: Vec<&Call> = rec.calls.iter().filter(|c| c.iter == 0).collect();
+    for id in ids {
+        let calls: Vec<Call> = rec
+            .calls
+            .iter()
+            .filter(|c| c.iter == id)
+            .filter(|c| !matches!(c.kind, CallKind::CloneIter | CallKind::FreshIter))
+            .cloned()
+            .collect();
+        facts.n_deliveries += calls.iter().map(delivered_count).sum::<usize>();
+        let creation = rec
+            .calls
+            .iter()
+            .find(|c| c.iter == id && matches!(c.kind, CallKind::CloneIter | CallKind::FreshIter));
+        let role = match creation.map(|c| c.kind) {
+            None => "original",
+            Some(CallKind::CloneIter) => "clone",
+            _ => "fresh",
+        };
+        // candidate start positions
+        let mut candidates: Vec<usize> = vec![0];
+        if let (Some(cr), "clone") = (creation, role) {
+            let cursor = |pred: &dyn Fn(&Call) -> bool| -> usize {
+                let mut delivered = 0usize;
+                let mut ended = false;
+                for c in orig_calls.iter().filter(|c| pred(c)) {
+                    delivered += delivered_count(c);
+                    if (c.kind.is_pull() && c.res == Res::End) || c.kind == CallKind::Skip {
+                        ended = true;
+                    }
+                }
+                if ended {
+                    len
+                } else {
+                    delivered.min(len)
+                }
+            };
+            let lo = cursor(&|c: &Call| c.ret < cr.invoke);
+            let hi = cursor(&|c: &Call| c.invoke < cr.ret);
+            candidates = (lo.min(hi)..=hi.max(lo)).collect();
+        }
+        let mut best: Option<Vec<Finding>> = None;
+        for &c0 in &candidates {
+            let mut sub_calls = Vec::new();
+            if c0 > 0 {
+                // positions below c0 count as delivered before the iterator existed
+                sub_calls.push(Call {
+                    iter: id,
+                    tid: 99,
+                    kind: CallKind::Chunk,
+                    arg: c0,
+                    invoke: 0,
+                    ret: 1,
+                    res: Res::Chunk {
+                        begin: 0,
+                        announced: c0,
+                        items: vec![],
+                        lens: vec![],
+                        exhausted: false,
+                        impossible: false,
+                    },
+                });
+            }
+            sub_calls.extend(calls.iter().cloned());
+            let sub = RunRecord {
+                calls: sub_calls,
+                seq_items: if id == 0 { rec.seq_items.clone() } else { None },
+                ..rec.clone()
+            };
+            let mut sub_cfg = cfg.clone();
+            sub_cfg.prop = "C19-single".into();
+            let (fs, fx) = evaluate_single(&sub_cfg, &sub);
+            if fx.lin_checked {
+                facts.lin_checked = true;
+                facts.lin_states += fx.lin_states;
+            }
+            let fs: Vec<Finding> = fs.into_iter().filter(|x| x.prop != "C15").collect();
+            if fs.is_empty() {
+                best = Some(vec![]);
+                break;
+            }
+            if best.as_ref().map(|b| fs.len() < b.len()).unwrap_or(true) {
+                best = Some(fs);
+            }
+        }
+        if let Some(fs) = best {
+            if let Some(first) = fs.first() {
+                out.push(f(
+                    "C19",
+                    &format!("{role}:{}", first.class),
+                    format!(
+                        "iterator #{id} ({role}; possible start positions {:?}) does not behave like an independent cursor over the collection: [{}] {}",
+                        candidates, first.prop, first.msg
+                    ),
+                ));
+                break;
+            }
+        }
+    }
     (out, facts)
 }
